@@ -35,6 +35,24 @@ NEEDS = {
     "C20-b": "history across specs in one (worker) process: an earlier spec with a different spec.mapper.tiling_coarseness "
              "warms a memo cache whose key omits it.",
     "C20-c": "cache_dir shared between two specs that differ only in spec.variables (same arch/workload text).",
+    # ---- second round (agents were told what the first round had produced, to get different mechanisms)
+    "C32-c": "unusual input: chunked dispatch whose leftover arithmetic drops the last jobs when len(jobs) % n_jobs > "
+             "len(jobs) // n_jobs (>= 6 workers, no pbar, list mode, len(jobs) > 4 * n_jobs), e.g. 8 workers x 39 jobs.",
+    "C15-c": "unusual input: compressed index stored as uint16 sized by the group's own row count; a later small group "
+             "whose running start offset lies beyond 65535 wraps onto rows of an earlier group (silently wrong details).",
+    "C27-c": "two cooperating sites + history: a per-component record of the Einsum the costs were calculated for; a "
+             "repeat call with a different einsum_name (or after _for_einsum) treats the costs as not calculated and "
+             "re-applies the scale factors.",
+    "C14-d": "unusual input + configuration: memory names where an ignored (infinite) memory's name is a prefix of a "
+             "tracked one's (DRAM / DRAMCache), metrics without RESOURCE_USAGE, pmappings made with "
+             "can_combine_multiple_runs=True (so that the join stage's own memory skipping has DRAM to skip), and a "
+             "buffer of one to two tensors with 3 Einsums so that capacity binds only at join level.",
+    "C14-e": "the optimality filter sorts its comparison points per column (np.sort axis=0): needs >= 2 objectives that "
+             "trade off and no RESOURCE_USAGE; single-objective runs are unaffected.",
+    "C20-d": "worker count: dirty pruning done in place survives only when jobs run in-process (1 worker); with N "
+             "workers they run on pickled copies. Objective values differ.",
+    "C20-e": "completion order: detailed-evaluation results collected in arrival order; needs a front of >= 2 mappings, "
+             "> 1 worker and out-of-order completion. Only the row order of the returned front changes.",
 }
 
 
